@@ -72,11 +72,40 @@ example : (∀ i, (Array.replicate 64 0 : Array Nat).getD i 0 ≤ 255) := by
 
 -- OPEN: idct_fdct_within (the property's last sentence, K = 1):
 --   ∀ src, (∀ i, src.getD i 0 ≤ 255) → ∀ i < 64,
---     ((inverseDCT (forwardDCT src)).getD i 0 : Int) - src.getD i 0 ∈ [-1, 1]
--- is FALSE for the model and for the implementation: blocks with error 2 exist (KNOWN FINDING,
--- findings/C18/idct-fdct-error2.txt; the harness re-evaluates them on every run and the model
--- agrees with the implementation on them byte for byte).  A norm bound (rounding error ≤ 1/2 per
--- coefficient times the ∞-norm ≈ 6.98 of the IDCT rows, plus fixed-point error, plus the final
--- rounding) gives K = 4; it is not formalised here.
+--     |(inverseDCT (forwardDCT src)).getD i 0 − src.getD i 0| ≤ 1
+-- is FALSE, for the model and for the implementation: `idct_fdct_not_within_one` below proves
+-- it on a concrete block (KNOWN FINDING, findings/C18/idct-fdct-error2.txt; the harness
+-- re-evaluates the witnesses on every run and the model agrees with the implementation on them
+-- byte for byte).  No upper bound K is proved: a norm bound (rounding error ≤ 1/2 per coefficient
+-- times the ∞-norm ≈ 6.98 of the IDCT rows, plus the fixed-point error of the cosine table, plus
+-- the final rounding) would give K = 4; the search (3·10⁶ random + 6000 hill-climbed blocks per
+-- thorough run) has never seen an error above 2.
+
+/-- **Known finding, formally** (`idct_fdct_not_within_one`): the property's last sentence —
+    "the inverse DCT of [the forward DCT] returns each pixel to within one" — is false for the
+    model (which agrees with the implementation byte for byte on this block, see the `fdct`/`idct`
+    ops of every run): for the first witness block of findings/C18/idct-fdct-error2.txt, pixel 35
+    comes back 2 lower. -/
+theorem idct_fdct_not_within_one :
+    ∃ src : Array Nat, (∀ i, src.getD i 0 ≤ 255) ∧
+      ∃ i, i < 64 ∧ (((inverseDCT (forwardDCT src)).getD i 0 : Nat) : Int) - ((src.getD i 0 : Nat) : Int) = -2 := by
+  have hw := witness_errs
+  refine ⟨witness1.toArray, fun i => ?_, 35, by decide, ?_⟩
+  · rw [getD_toList, List.getD_eq_getElem?_getD]
+    cases hi : witness1.toArray.toList[i]? with
+    | none => simp
+    | some x =>
+      have hm := List.mem_of_getElem? hi
+      have := (List.all_eq_true.mp hw.2.1) x (by simpa using hm)
+      simpa using this
+  · have h1 : (inverseDCT (forwardDCT witness1.toArray)).getD 35 0 =
+        biasAndClamp.getD ((idctRaw (forwardDCT witness1.toArray) 35) % 1024).toNat 0 := by
+      simp [inverseDCT, Array.getD]
+    rw [h1, idctRaw_eq_L, getD_toList biasAndClamp, getD_toList witness1.toArray]
+    have h2 := hw.1
+    simp only [witnessErrs, List.getD_eq_getElem?_getD] at h2
+    rw [List.getElem?_map, List.getElem?_range (by decide)] at h2
+    simpa [List.getD_eq_getElem?_getD] using h2
+
 
 end WuffsVerif.Props.C18
